@@ -36,6 +36,15 @@ MCQ = {"roots": "curated", "depth": 1, "sweep": 0}
 MCT = {"roots": "curated", "depth": 2, "sweep": 0}
 
 
+def castle_gen(name, obs, checks, qmod, **kw):
+    """Mode C: TLC-enumerated castling situations (Gen_Castle.tla) run on the library and judged by Trace_Board."""
+    j = {"type": "gen", "name": name, "gen_spec": "Gen_Castle", "driver": "board", "spec": "Trace_Board", "checks": checks,
+         "args": {"common": {"obs": ",".join(obs)}},
+         "params": {"quick": {"gencfg": {"kinds": 3, "mod": qmod, "rem": 0}, "workers": 8}, "thorough": {"gencfg": {"kinds": 4, "mod": 1, "rem": 0}, "workers": 16, "xmx": "10g", "timeout": 3600}}}
+    j.update(kw)
+    return j
+
+
 def board_job(name, obs, checks, q, t, variant="release", extra_common=None, **kw):
     common = {"obs": ",".join(obs)}
     if extra_common:
@@ -51,6 +60,7 @@ PROPS = {
         "rule": "states visited by seeded histories (corpus, curated, 960/DFRC starts, constructed builder states; random walks, full subtrees below curated roots); an observation is non-trivial when the position has at least one legal move",
         "assumptions": BOARD_ASSUME,
         "jobs": [
+            castle_gen("castling-cases", ["gen"], ["C01"], 40),
             chess_model("model-gen", ["WellFormed", "GenExact"], [], MCQ, MCT),
             board_job("gen-magic", ["gen"], ["C01"], {"histories": 500, "subtrees": 80, "deep": 2}, {"histories": 30000, "subtrees": 200, "deep": 30}, sample_kinds=["reset", "gen", "play"]),
             board_job("gen-pext", ["gen"], ["C01"], {"histories": 250, "subtrees": 10}, {"histories": 15000, "subtrees": 200, "deep": 10}, variant="pext", seed_offset=7919, sample_kinds=["gen"]),
@@ -60,6 +70,7 @@ PROPS = {
         "rule": "transitions (position, legal move, successor) recorded along seeded histories; every legal move of every curated root and of the first 2 roots' successors is played",
         "assumptions": BOARD_ASSUME,
         "jobs": [
+            castle_gen("castling-cases", [], ["C02"], 40, seed_offset=13),
             chess_model("model-play", ["WellFormed"], ["SuccOK"], MCQ, MCT),
             board_job("play", [], ["C02"], {"histories": 900, "subtrees": 80, "deep": 3}, {"histories": 60000, "subtrees": 200, "deep": 40}, sample_kinds=["reset", "play"]),
         ],
@@ -77,6 +88,7 @@ PROPS = {
         "rule": "all 64*64*7 move values swept through is_legal on every visited state; non-trivial = state with a legal move",
         "assumptions": BOARD_ASSUME,
         "jobs": [
+            castle_gen("castling-cases", ["islegal"], ["C04"], 60, seed_offset=29),
             chess_model("model-islegal", ["IsLegalOK"], [], dict(MCQ, sweep=2), dict(MCT, sweep=2, max_roots=40)),
             board_job("islegal", ["islegal"], ["C04"], {"histories": 500, "subtrees": 80, "deep": 1}, {"histories": 40000, "subtrees": 200, "deep": 30}, sample_kinds=["reset", "islegal"]),
         ],
